@@ -69,6 +69,8 @@ type Tmpl struct {
 	// JNAllowBad lets a json.Number hold a text that math/big cannot parse (hand-built values
 	// such as json.Number("abc"), or "1e9999999"): selected by the node's JBad flag.
 	JNAllowBad bool
+	// NamedKeyMapsOnly (with ContainerReps): objects are map[string]any or map[NamedKey]any, nothing else varies.
+	NamedKeyMapsOnly bool
 	// TypedPtrElems lets typed containers have the element types *T and [n]any besides T.
 	TypedPtrElems bool
 	// RootTyped restricts the root to a typed container ([]T, map[string]T with T concrete).
